@@ -13,7 +13,7 @@ import (
 	"verifharness/internal/val"
 )
 
-var c20Floor = []string{"set", "get", "get.unset", "get.after-set-same-row", "get.before-set-same-row", "set.overwrite", "set.expr", "set.literal", "where", "prepopulated", "queries.2", "queries.3+", "keys.multi", "table.empty", "dual", "prebuilt", "order.projected", "order.unprojected", "grouped", "grouped.having", "get.subquery", "opt.callback", "keys.numeric", "union.derived-right", "union.cte-right", "union.nested-right", "union.plain"}
+var c20Floor = []string{"set", "get", "get.unset", "get.after-set-same-row", "get.before-set-same-row", "set.overwrite", "set.expr", "set.literal", "where", "prepopulated", "queries.2", "queries.3+", "keys.multi", "table.empty", "dual", "prebuilt", "order.projected", "order.unprojected", "grouped", "grouped.having", "get.subquery", "opt.callback", "keys.numeric", "union.derived-right", "union.cte-right", "union.nested-right", "union.plain", "reexec.register-where", "multidim.register-where", "literal.whitespace"}
 
 func init() {
 	fw.Register(&fw.Prop{
@@ -33,6 +33,7 @@ func init() {
 			{Name: "history", N: func(t fw.Tier) int { return pick(t, 10000, 400000) }, Run: c20Run},
 			{Name: "grouped", N: func(t fw.Tier) int { return pick(t, 1000, 30000) }, Run: c20Grouped},
 			{Name: "union", N: func(t fw.Tier) int { return pick(t, 600, 20000) }, Run: c20Union},
+			{Name: "reexec", N: func(t fw.Tier) int { return pick(t, 600, 20000) }, Run: c20Reexec},
 		},
 		Witness: sqlWitness,
 	})
@@ -544,4 +545,126 @@ func c20Union(c *fw.Case) {
 		return
 	}
 	c.Nontrivial(sql + val.Canon(doc))
+}
+
+
+// c20Reexec: a predicate that reads only a register. One Query kept and
+// executed again after another query (given the same map) changed the register
+// observes the new value; over an array of arrays, the inner arrays are
+// evaluated one after the other against the one store.
+func c20Reexec(c *fw.Case) {
+	if c.Idx%4 == 3 {
+		// queries that differ only inside a string constant (runs of blanks,
+		// tabs, line feeds): each writes the value, and the key, it spells
+		vars := map[string]any{}
+		texts := []string{"a b", "a  b", "a\tb", "a \n b", " a b", "a b ", "a   b"}
+		c.R.Shuffle(len(texts), func(i, j int) { texts[i], texts[j] = texts[j], texts[i] })
+		asKey := c.Chance(0.4)
+		c.Feature("literal.whitespace")
+		for i, txt := range texts[:2+c.Intn(4)] {
+			sql := "SELECT SETVAR('k', " + gen.SQLString(txt, 0) + "), GETVAR('k') AS g FROM dual"
+			want := map[string]any{"g": txt}
+			if asKey {
+				sql = "SELECT SETVAR(" + gen.SQLString(txt, 0) + ", " + fmt.Sprint(i) + "), GETVAR(" + gen.SQLString(txt, 0) + ") AS g FROM dual"
+				want = map[string]any{"g": float64(i)}
+			}
+			o := Run(map[string]any{}, sql, genql.WithVars(vars))
+			c.Evals(1)
+			stored := vars["k"]
+			wantStored := any(txt)
+			if asKey {
+				stored, wantStored = vars[txt], float64(i)
+			}
+			if !o.OK() || !val.SameSeq(o.Rows, []any{want}) || !val.Equal(stored, wantStored) {
+				c.Violate("wrong-value", fmt.Sprintf("query %d (%q) returned %s and left the map %s", i, sql, short(fmt.Sprint(o.Describe()), 150), short(val.Canon(vars), 200)),
+					map[string]any{"sql": sql, "observed": o.Describe(), "observed_store": val.Show(vars)})
+				return
+			}
+		}
+		c.Nontrivial(fmt.Sprint(texts, asKey))
+		return
+	}
+	if c.Idx%3 == 2 {
+		// rows spread over inner arrays: an inner array's WHERE sees what the
+		// select lists of the inner arrays before it stored
+		n := 2 + c.Intn(4)
+		mm := make([]any, n)
+		next := 1.0
+		var want []any
+		on := 0.0
+		limit := float64(1 + c.Intn(6))
+		for i := range mm {
+			inner := make([]any, 1+c.Intn(3))
+			var keep []any
+			pass := on < limit
+			for j := range inner {
+				inner[j] = map[string]any{"a": next}
+				if pass {
+					keep = append(keep, map[string]any{"a": next})
+				}
+				next++
+			}
+			if pass {
+				on = next - 1
+			}
+			mm[i] = inner
+			want = append(want, keep)
+		}
+		sql := fmt.Sprintf("SELECT a, SETVAR('on', a) FROM mm WHERE GETVAR('on') < %v", limit)
+		vars := map[string]any{"on": 0.0}
+		o := Run(map[string]any{"mm": mm}, sql, genql.WithVars(vars))
+		c.Evals(1)
+		c.Feature("multidim.register-where")
+		c.Sample(map[string]any{"sql": sql, "inner_arrays": n})
+		det := map[string]any{"sql": sql, "doc": map[string]any{"mm": mm}, "expected_rows": val.Show(want), "observed": o.Describe(), "observed_store": val.Show(vars)}
+		if !o.OK() {
+			c.Violate("error", fmt.Sprintf("query failed: %v", o.Describe()), det)
+			return
+		}
+		if !c14Same(o.Rows, want) {
+			c.Violate("wrong-value", fmt.Sprintf("rows differ from the register model: got %s want %s", short(val.Canon(o.Rows), 300), short(val.Canon(want), 300)), det)
+			return
+		}
+		if !val.Equal(vars["on"], on) {
+			c.Violate("store", fmt.Sprintf("after Exec the register holds %v, the last value written is %v", vars["on"], on), det)
+			return
+		}
+		c.Nontrivial(sql + val.Canon(mm))
+		return
+	}
+	t := gen.RandTable(c.R, gen.TableSpec{Name: "t1", MinRows: 1, MaxRows: 8, NumCols: 1, StrCols: 1, StrStyle: gen.Plain})
+	doc := DocOf(t)
+	vars := map[string]any{"enabled": 1.0}
+	sql := gen.Pick(c.R, []string{"SELECT rid FROM t1 WHERE GETVAR('enabled') = 1", "SELECT rid, s1 FROM t1 WHERE 1 = GETVAR('enabled')", "SELECT rid FROM t1 WHERE GETVAR('enabled') = 1 AND GETVAR('enabled') >= 1", "SELECT rid FROM t1 WHERE NOT (GETVAR('enabled') = 0)"})
+	q, nerr := newSafe(doc, sql, genql.WithVars(vars))
+	if q == nil {
+		c.Violate("error", fmt.Sprintf("query could not be constructed: %v", nerr.Describe()), map[string]any{"sql": sql})
+		return
+	}
+	c.Feature("reexec.register-where")
+	enabled := 1.0
+	for i := 1; i <= 5; i++ {
+		if i > 1 {
+			enabled = float64(c.Intn(2))
+			// another query, given the same map, writes the register
+			w := Run(map[string]any{}, fmt.Sprintf("SELECT SETVAR('enabled', %v) FROM dual", enabled), genql.WithVars(vars))
+			if !w.OK() || !val.Equal(vars["enabled"], enabled) {
+				c.Violate("store", fmt.Sprintf("SETVAR over dual did not store: %v, map %s", w.Describe(), val.Canon(vars)), map[string]any{"vars": vars})
+				return
+			}
+		}
+		got := execBuilt(q)
+		c.Evals(1)
+		wantN := 0
+		if enabled == 1 {
+			wantN = len(t.Rows)
+		}
+		if !got.OK() || len(got.Rows) != wantN {
+			c.Violate("wrong-value", fmt.Sprintf("execution %d with the register at %v returned %d rows, expected %d", i, enabled, len(got.Rows), wantN),
+				map[string]any{"sql": sql, "doc": doc, "execution": i, "register": enabled, "observed": got.Describe()})
+			return
+		}
+	}
+	c.Sample(map[string]any{"sql": sql})
+	c.Nontrivial(sql + val.Canon(t.Array()))
 }
